@@ -309,6 +309,16 @@ def validate_stage_traces(chk, runs):
     if not seen:
         raise C.Machinery('no stage traces recorded (hooks not active?)')
     keys = sorted(seen)
+    # self-test of the binding: a real stage sequence with two neighbouring stages swapped must be rejected
+    longest = max(keys, key=lambda k_: len(k_[0]))
+    if len(longest[0]) >= 6:
+        st_ = list(longest[0])
+        st_[3], st_[4] = st_[4], st_[3]
+        probe = (tuple(st_), 'probe')
+        keys = keys + [probe]
+        seen[probe] = ['(self-test)']
+    else:
+        probe = None
     wd = C.workdir('trace-c20')
     tf = os.path.join(wd, 'traces.json')
     json.dump([dict(st=list(k[0]), end=k[1]) for k in keys], open(tf, 'w'))
@@ -321,6 +331,11 @@ def validate_stage_traces(chk, runs):
             verdicts.append(tuple(int(x) for x in m.groups()))
     if len(verdicts) != len(keys):
         raise C.Machinery('stage trace validation produced %d verdicts for %d traces: %s' % (len(verdicts), len(keys), res.out[-1200:]))
+    if probe is not None:
+        t, matched, expected, code = verdicts[-1]
+        if matched == expected:
+            raise C.Machinery('TraceCmdline accepted a stage sequence with two stages swapped: the trace validation is vacuous')
+        keys, verdicts = keys[:-1], verdicts[:-1]
     chk.cov['stage_traces_validated'] = len(keys)
     chk.cov['stage_trace_events'] = sum(len(k[0]) for k in keys)
     diverged = []
